@@ -17,7 +17,7 @@ import (
 // value to parser.FunctionBlock.
 func c03URLForms(c *core.Check) {
 	p := c.Prog
-	r := c.Rule("R12", "both token forms of <url>: every function of the module that tests a token for parser.URL (type switch or assertion) tests the same value for parser.FunctionBlock too — the quoted form url(\"…\") is a function block", 3)
+	r := c.Rule("R12", "both token forms of <url>: every function of the module that tests a token for parser.URL (type switch or assertion) tests the same value for parser.FunctionBlock too — the quoted form url(\"…\") is a function block", 4)
 	n := 0
 	for _, fn := range p.ModFuncs {
 		if fn.Pkg == nil || fn.Blocks == nil {
@@ -64,7 +64,7 @@ func c03URLForms(c *core.Check) {
 // hints of the previous element assigned to it.
 func c03StyleAttrFresh(c *core.Check) {
 	p := c.Prog
-	r := c.Rule("R13", "findStyleAttributes: the specificity stored with each entry is a specificity literal of the current iteration (a load of the literal, never a merge at the loop header): the weight of a style attribute does not depend on the element visited before", 2)
+	r := c.Rule("R13", "findStyleAttributes: the specificity stored with each entry is a specificity literal of the current iteration (a load of the literal, never a merge at the loop header): the weight of a style attribute does not depend on the element visited before", 36)
 	fn := p.Fn("html/tree", "findStyleAttributes")
 	if fn == nil {
 		r.Anchor("html/tree.findStyleAttributes")
